@@ -245,7 +245,7 @@ def run(chk):
     chk.tested_not_proved += ['UPGMA ultrametricity on floats (proved for exact arithmetic by C09_upgma_ultrametric; with rounding it is tested with a relative tolerance 1e-9), '
                               'UPGMA clade recovery on ultrametric matrices with distinct node heights, NJ topology and path-sum recovery on additive matrices: tested on '
                               'generated trees, not proved',
-                              'NJ structure clause (join sequence valid, n-1 joins, leaves = taxa): oracle on every generated matrix']
+                              'that the ids in the NJ tree matrix name the right nodes (tracer) is covered by the bit-exact differential and the decoding oracle, not by a theorem']
     chk.extra['identified_upgma_lastMin'] = ident.get('_upgma')
     for w in ('_upgma', '_neighbor'):
         chk.obligation('correspondence:%s tree matrix == model (ids and branch lengths, bit-exact)' % w, 'correspondence',
